@@ -21,11 +21,22 @@ Definition vw_view (v : vw) : view N :=
   end.
 Inductive ob :=
 | OB (r : out) (v : list vw)                (* the HTTP views equal the direct views *)
-| OB2 (r : out) (dv hv : list vw).
-Definition ob_obs (o : ob) : obs N :=
-  match o with
-  | OB r v => (r, map vw_view v, map vw_view v)
-  | OB2 r dv hv => (r, map vw_view dv, map vw_view hv)
+| OB2 (r : out) (dv hv : list vw)
+| OBD (r : out) (ch : list (N * vw)).       (* HTTP = direct = the previous operation's direct views, updated at the listed positions *)
+Fixpoint upd (vs : list vw) (i : nat) (v : vw) : list vw :=
+  match vs, i with
+  | [], _ => []
+  | _ :: t, O => v :: t
+  | x :: t, S j => x :: upd t j v
+  end.
+Fixpoint expand (prev : list vw) (l : list ob) : list (obs N) :=
+  match l with
+  | [] => []
+  | OB r v :: t => (r, map vw_view v, map vw_view v) :: expand v t
+  | OB2 r dv hv :: t => (r, map vw_view dv, map vw_view hv) :: expand dv t
+  | OBD r ch :: t =>
+      let cur := fold_left (fun vs p => upd vs (N.to_nat (fst p)) (snd p)) ch prev in
+      (r, map vw_view cur, map vw_view cur) :: expand cur t
   end.
 
 Record case := mkcase {
@@ -35,7 +46,7 @@ Record case := mkcase {
   k_ops : list (op N);
   k_ob : list ob
 }.
-Definition k_obs (c : case) : list (obs N) := map ob_obs (k_ob c).
+Definition k_obs (c : case) : list (obs N) := expand (map (fun _ => V0) (k_names c)) (k_ob c).
 
 (* the model evaluated is the FIXED code (fixes/C01_mem_path_verify.patch applied) *)
 Definition cfg_of (c : case) : cfg :=
